@@ -28,8 +28,9 @@
 (*             (-1, or byte count sum(1+len) of a unilateral-close stack)]>>*)
 (*   c.outs  <<[v, path ("none","own","other","badlen"), own ("wallet",    *)
 (*             "xpub","listed","foreign","funding"), st, inlist (script is *)
-(*             literally in the node's allowlist), xin (its xpub is in the *)
-(*             allowlist), ch (index into c.chans of the Ready channel     *)
+(*             literally in the node's allowlist), xin (the xpub it derives  *)
+(*             from - a foreign one, or the node's OWN account xpub for a    *)
+(*             wallet script - is in the allowlist), ch (index into c.chans of the Ready channel     *)
 (*             whose funding outpoint is this output, 0 none), fs (script  *)
 (*             is that channel's true 2-of-2 funding script)]>>            *)
 (*   c.chans <<[val, outbound, push (msat), nh, hasnext]>>                 *)
@@ -108,7 +109,7 @@ OutCode(o, c) ==
        THEN [k |-> "err", v |-> Big0, tag |-> "policy-onchain-output-scriptpubkey"]
        ELSE IF o.own = "wallet" /\ o.path = "own" /\ o.st \in {"p2wpkh", "p2sh", "p2tr"}
        THEN [k |-> "ben", v |-> o.v, tag |-> ""]
-       ELSE IF o.inlist \/ (o.own = "xpub" /\ o.xin /\ o.path = "own" /\ o.st \in {"p2wpkh", "p2pkh", "p2tr"})
+       ELSE IF o.inlist \/ (o.own \in {"xpub", "wallet"} /\ o.xin /\ o.path = "own" /\ o.st \in {"p2wpkh", "p2pkh", "p2tr"})
        THEN [k |-> "ben", v |-> o.v, tag |-> ""]
        ELSE [k |-> "err", v |-> Big0, tag |-> "policy-onchain-no-unknown-outputs"]
   ELSE IF o.inlist
@@ -181,7 +182,8 @@ FeeFloor(c) == BCeilDiv(BMul(B(RefWeight(c)), c.pol.maxfr + 1), 1000)
 Countersigned(h) == h.nh >= 1 \/ h.hasnext
 \* the named rules an output breaks
 OutDefects(o, c) ==
-  IF o.ch # 0
+  IF o.inlist THEN {}            \* an allowlisted script is an approved destination, whatever else it is
+  ELSE IF o.ch # 0
   THEN LET h == c.chans[o.ch] IN
        (IF ~BEq(o.v, h.val) THEN {"fund_value"} ELSE {})
          \cup (IF ~o.fs THEN {"fund_script"} ELSE {})
@@ -298,7 +300,8 @@ Facts(a) ==
                  [v |-> a.ins[k].v, sw |-> t.sw, st |-> t.st, uck |-> t.uck]],
     outs  |-> [k \in DOMAIN a.outs |-> LET t == KindTab[a.outs[k].kind] IN
                  [v |-> a.outs[k].v, path |-> t.path, own |-> t.own, st |-> t.st,
-                  inlist |-> (t.own = "listed" /\ a.listed), xin |-> (t.own = "xpub" /\ a.xpub),
+                  inlist |-> (t.own = "listed" /\ a.listed) \/ a.outs[k].al,
+                  xin |-> (t.own = "xpub" /\ a.xpub) \/ (t.own = "wallet" /\ a.ownxpub),
                   ch |-> ChanAt(a, k), fs |-> a.outs[k].kind \in {"F", "Fp"} /\ FundIdx(a, k) = ChanAt(a, k)]],
     chans |-> [j \in DOMAIN a.chans |-> LET t == CommitTab[a.chans[j].commit] IN
                  [val |-> a.chans[j].val, outbound |-> a.chans[j].outbound, push |-> a.chans[j].push,
